@@ -30,6 +30,13 @@ var registry = map[string]func() *check.Property{
 
 // thoroughOps: mutation operators of the thorough tier, per property.
 var thoroughOps = map[string][]mutOp{
+	"C01": {mutGateOpen, mutDropHook},
+	"C04": {mutAdapterConst},
+	"C07": {mutDropReturn},
+	"C17": {mutOnceUnwrap},
+	"C18": {mutDropReturn, mutCtxBackground, mutDropTeardown},
+	"C19": {mutDupForward, mutCtxBackground, mutDropTeardown},
+	"C20": {mutIgnoreLimit, mutDropReturn},
 	"C02": {mutUnsafeCtor, mutAsyncNext, mutDropLocksOf("subscriber"), mutDropLocksOf("subjects")},
 	"C03": {mutDropTeardown, mutDropLocksOf("subscription")},
 	"C06": {mutDropLocksOf("subscription")},
